@@ -12,6 +12,7 @@
 #include <boost/gil/extension/io/tiff.hpp>
 #include <boost/gil/extension/io/jpeg.hpp>
 #include <fstream>
+#include <png.h>
 #include <cstdio>
 #include <algorithm>
 #include "lib/trace.hpp"
@@ -19,6 +20,7 @@ namespace gil = boost::gil;
 using vt::J;
 static vt::Args* A;
 static std::string g_tmp, g_corpus;
+static std::string g_truth;      // pixels handed to an independent encoder for the next file (colour order), "" = unknown
 
 template <class View> std::string pix_json(View const& v) {         // channels in colour (semantic) order, so that bgr and rgb images compare by colour
     std::string s = "["; bool first = true;
@@ -54,6 +56,7 @@ void paths(const char* fmt, const char* variant, const std::string& path, bool s
         Native canon; R::full(path, canon);
         int W = (int)canon.width(), H = (int)canon.height();
         J("Canon").num("w", W).num("h", H).raw("pix", pix_json(gil::const_view(canon))).emit();
+        if (!g_truth.empty()) J("Truth").raw("pix", g_truth).emit();
         { auto be = gil::read_image_info(path, Tag()); J("Info").num("w", (long long)be._info._width).num("h", (long long)be._info._height).emit(); }
         { FILE* f = fopen(path.c_str(), "rb"); Native a; bool ok = true;
           if constexpr (!std::is_same<Tag, gil::tiff_tag>::value) { R::full(f, a); } else { ok = false; fclose(f); }
@@ -141,7 +144,9 @@ template <class Tag, class Img, class Info> std::string make(const char* ext, in
 int main(int argc, char** argv) {
     vt::Args args(argc, argv); A = &args; vt::install_handlers(); vt::T().open(args.out.c_str());
     g_tmp = args.rest.size() > 0 ? args.rest[0] : "/tmp"; g_corpus = args.rest.size() > 1 ? args.rest[1] : "/repo/test/extension/io/images";
-    long idx = 0; auto mine = [&]() { return (idx++ % args.nshards) == args.shard; };
+    bool only_enc = args.rest.size() > 2 && args.rest[2] == "enc";      // extension X04: only the files of the independent encoders
+    bool gate = !only_enc;
+    long idx = 0; auto mine = [&]() { bool m = (idx++ % args.nshards) == args.shard; return m && gate; };
     std::vector<std::pair<int,int>> dims = {{5, 4}, {3, 2}, {1, 1}, {4, 1}, {1, 3}};
     if (args.thorough()) { dims.push_back({8, 6}); dims.push_back({7, 5}); dims.push_back({2, 5}); }
     for (auto d : dims) {
@@ -215,6 +220,62 @@ int main(int argc, char** argv) {
             if (bpp <= 8) paths<gil::bmp_tag, gil::rgb8_image_t, true, true, false, gil::rgba8_image_t>("bmp", variant.c_str(), path, false, rng);
             else paths<gil::bmp_tag, gil::rgb8_image_t, true, true, false, gil::rgb8_image_t>("bmp", variant.c_str(), path, false, rng);
             remove(path.c_str());
+        }
+    }
+    // files produced by an independent encoder (this driver / libpng) from known pixels, in variants GIL cannot write:
+    // top-down BMP (negative height), TARGA with either screen origin (with the scanline reader), interlaced (Adam7) PNG.
+    // A Truth event carries the encoded pixels (extension clause X_DecodesAsEncoded; the C13 clauses compare the ways of reading among themselves).
+    {
+        vt::Rng rng(args.seed * 131); gate = true;
+        auto tj = [&](std::vector<std::vector<long>> const& px) { std::string t = "["; for (size_t i = 0; i < px.size(); ++i) { if (i) t += ','; t += '['; for (size_t k = 0; k < px[i].size(); ++k) { if (k) t += ','; t += std::to_string(px[i][k]); } t += ']'; } return t + "]"; };
+        auto spitf = [&](std::vector<unsigned char> const& b, const char* ext) { std::string path = g_tmp + "/ie_" + std::to_string(getpid()) + "." + ext; FILE* f = fopen(path.c_str(), "wb"); fwrite(b.data(), 1, b.size(), f); fclose(f); return path; };
+        int WM = args.thorough() ? 9 : 5;
+        for (int w = 1; w <= WM; ++w) for (int h : {1, 3, 4}) for (int topdown = 0; topdown < 2; ++topdown) for (int bits : {24, 32}) {
+            if (!mine()) continue;
+            int bpp = bits / 8, pitch = ((w * bits + 31) / 32) * 4; std::vector<unsigned char> b(54 + pitch * h, 0); std::vector<std::vector<long>> px((size_t)w * h);
+            auto le32 = [&](int at, uint32_t v) { b[at] = v & 255; b[at + 1] = (v >> 8) & 255; b[at + 2] = (v >> 16) & 255; b[at + 3] = (v >> 24) & 255; };
+            b[0] = 'B'; b[1] = 'M'; le32(2, (uint32_t)b.size()); le32(10, 54); le32(14, 40); le32(18, w); le32(22, (uint32_t)(topdown ? -h : h)); b[26] = 1; b[28] = (unsigned char)bits; le32(34, pitch * h);
+            for (int fr = 0; fr < h; ++fr) for (int x = 0; x < w; ++x) { int y = topdown ? fr : h - 1 - fr; long B = rng.below(256), G = rng.below(256), R = rng.below(256);
+                b[54 + fr * pitch + bpp * x] = (unsigned char)B; b[54 + fr * pitch + bpp * x + 1] = (unsigned char)G; b[54 + fr * pitch + bpp * x + 2] = (unsigned char)R; if (bpp == 4) b[54 + fr * pitch + bpp * x + 3] = (unsigned char)rng.below(256);
+                if (bpp == 4) px[(size_t)y * w + x] = {R, G, B, (long)b[54 + fr * pitch + bpp * x + 3]}; else px[(size_t)y * w + x] = {R, G, B}; }
+            std::string path = spitf(b, "bmp"); g_truth = tj(px);
+            std::string variant = std::string("enc/") + std::to_string(bits) + "bpp/" + (topdown ? "top-down" : "bottom-up");
+            if (bits == 24) paths<gil::bmp_tag, gil::rgb8_image_t, false, true, false, gil::bgr8_image_t>("bmp", variant.c_str(), path, w * h <= 12, rng);
+            else paths<gil::bmp_tag, gil::rgba8_image_t, false, true, false, gil::bgra8_image_t>("bmp", variant.c_str(), path, w * h <= 12, rng);
+            g_truth.clear(); remove(path.c_str());
+        }
+        for (int w = 1; w <= WM; ++w) for (int h : {1, 3, 4}) for (int ul = 0; ul < 2; ++ul) for (int bits : {24, 32}) {
+            if (!mine()) continue;
+            int bpp = bits / 8; std::vector<unsigned char> b(18 + (size_t)bpp * w * h, 0); std::vector<std::vector<long>> px((size_t)w * h);
+            b[2] = 2; b[12] = (unsigned char)w; b[14] = (unsigned char)h; b[16] = (unsigned char)bits; b[17] = (unsigned char)((ul ? 0x20 : 0) | (bits == 32 ? 8 : 0));
+            for (int fr = 0; fr < h; ++fr) for (int x = 0; x < w; ++x) { int y = ul ? fr : h - 1 - fr; long B = rng.below(256), G = rng.below(256), R = rng.below(256), Al = rng.below(256); size_t o = 18 + (size_t)bpp * (fr * w + x);
+                b[o] = (unsigned char)B; b[o + 1] = (unsigned char)G; b[o + 2] = (unsigned char)R; if (bpp == 4) b[o + 3] = (unsigned char)Al;
+                if (bpp == 4) px[(size_t)y * w + x] = {R, G, B, Al}; else px[(size_t)y * w + x] = {R, G, B}; }
+            std::string path = spitf(b, "tga"); g_truth = tj(px);
+            std::string variant = std::string("enc/raw") + std::to_string(bits) + "/" + (ul ? "upper-left" : "bottom-left");
+            if (bits == 24) paths<gil::targa_tag, gil::rgb8_image_t, false, true, false, gil::bgr8_image_t>("tga", variant.c_str(), path, w * h <= 12, rng);
+            else paths<gil::targa_tag, gil::rgba8_image_t, false, true, false, gil::bgra8_image_t>("tga", variant.c_str(), path, w * h <= 12, rng);
+            g_truth.clear(); remove(path.c_str());
+        }
+        auto png = [&](int w, int h, int ctype, int depth, int nc, int interlace, std::vector<std::vector<long>>& px) {
+            std::string path = g_tmp + "/ie_" + std::to_string(getpid()) + ".png"; FILE* f = fopen(path.c_str(), "wb");
+            png_structp p = png_create_write_struct(PNG_LIBPNG_VER_STRING, 0, 0, 0); png_infop i = png_create_info_struct(p); png_init_io(p, f);
+            png_set_IHDR(p, i, w, h, depth, ctype, interlace ? PNG_INTERLACE_ADAM7 : PNG_INTERLACE_NONE, PNG_COMPRESSION_TYPE_DEFAULT, PNG_FILTER_TYPE_DEFAULT); png_write_info(p, i);
+            int bpc = depth / 8; std::vector<std::vector<unsigned char>> rows(h, std::vector<unsigned char>((size_t)w * nc * bpc)); std::vector<png_bytep> rp(h); px.assign((size_t)w * h, {});
+            for (int y = 0; y < h; ++y) { for (int x = 0; x < w; ++x) for (int c = 0; c < nc; ++c) { long v = rng.below(bpc == 1 ? 256 : 65536); px[(size_t)y * w + x].push_back(v);
+                    if (bpc == 1) rows[y][(size_t)x * nc + c] = (unsigned char)v; else { rows[y][((size_t)x * nc + c) * 2] = (unsigned char)(v >> 8); rows[y][((size_t)x * nc + c) * 2 + 1] = (unsigned char)(v & 255); } }
+                rp[y] = rows[y].data(); }
+            png_set_interlace_handling(p); png_write_image(p, rp.data()); png_write_end(p, i); png_destroy_write_struct(&p, &i); fclose(f); return path; };
+        std::vector<std::pair<int,int>> pd = {{1, 1}, {3, 2}, {5, 4}, {9, 3}, {2, 9}};
+        if (args.thorough()) { pd.push_back({8, 8}); pd.push_back({9, 9}); pd.push_back({17, 5}); }
+        for (auto d : pd) for (int il = 0; il < 2; ++il) for (int kind = 0; kind < 4; ++kind) {
+            if (!mine()) continue;
+            std::vector<std::vector<long>> px; std::string path; bool small = d.first * d.second <= 12; std::string variant = std::string("enc/") + (il ? "interlaced/" : "plain/");
+            if (kind == 0) { path = png(d.first, d.second, PNG_COLOR_TYPE_GRAY, 8, 1, il, px); g_truth = tj(px); paths<gil::png_tag, gil::gray8_image_t, false, false, true>("png", (variant + "gray8").c_str(), path, small, rng); }
+            if (kind == 1) { path = png(d.first, d.second, PNG_COLOR_TYPE_RGB, 8, 3, il, px); g_truth = tj(px); paths<gil::png_tag, gil::rgb8_image_t, false, false, true>("png", (variant + "rgb8").c_str(), path, small, rng); }
+            if (kind == 2) { path = png(d.first, d.second, PNG_COLOR_TYPE_RGB_ALPHA, 8, 4, il, px); g_truth = tj(px); paths<gil::png_tag, gil::rgba8_image_t, false, false, true>("png", (variant + "rgba8").c_str(), path, small, rng); }
+            if (kind == 3) { path = png(d.first, d.second, PNG_COLOR_TYPE_RGB, 16, 3, il, px); g_truth = tj(px); paths<gil::png_tag, gil::rgb16_image_t, false, false, true>("png", (variant + "rgb16").c_str(), path, small, rng); }
+            g_truth.clear(); remove(path.c_str());
         }
     }
     J("End").num("events", vt::T().events).emit(); vt::T().close(); return 0;
